@@ -457,7 +457,10 @@ var expCost = map[string]bool{"Int": true, "Rat": true, "IntTo": true, "RatTo": 
 var precCost = map[string]bool{"Quo": true, "Sqrt": true, "SetRat": true, "SetFloat": true, "SetFloat64": true,
 	"Parse": true, "SetString": true, "Scan": true, "Sscanf": true, "UnmarshalText": true, "UnmarshalJSON": true, "TextCopy": true, "JSONCopy": true}
 
-const maxSpread = 6000
+// maxSpread is the largest exponent gap (in digits) of a sum the simulation
+// executes; scenarios made for far-apart operands raise it for their own run.
+var maxSpread int64 = 6000
+
 const maxWorkPrec = 20000
 
 // costGuard keeps the simulation away from operations whose cost is
@@ -501,6 +504,13 @@ func costGuard(w *World, op *Op) string {
 		}
 		if p > maxWorkPrec {
 			return "working precision exceeds the simulation's cost limit"
+		}
+	}
+	if len(op.Name) > 2 && op.Name[:2] == "c." && w.Ctx != nil && w.Ctx.Prec() > maxWorkPrec {
+		// operations through a Context work at the context's precision
+		switch name {
+		case "Quo", "Sqrt", "NewRat", "NewFloat", "NewFloat64", "NewString", "ParseDecimal", "NewInt":
+			return "context precision exceeds the simulation's cost limit"
 		}
 	}
 	if (name == "Float" && op.P == 0 || name == "FloatTo" && (w.BF == nil && op.P == 0 || w.BF != nil && w.BF.Prec() == 0)) && len(op.A) > 0 && w.V[op.A[0]].Prec() > maxWorkPrec {
